@@ -67,6 +67,9 @@ type c07params struct {
 	maxNode  int // 0 = unset
 	query    []string
 	optional map[string]string // unset leaves whose default may be reported
+	// fields / fc.xfields written as prefix(rest1;rest2)
+	groupedSpelling bool
+	emptyWindow     bool
 }
 
 func (p *c07params) String() string { return strings.Join(p.query, "&") }
@@ -510,6 +513,9 @@ func paramSet(p *c07params) string {
 				n = "fields-nested"
 			}
 		}
+		if p.groupedSpelling {
+			n += "-grouped"
+		}
 		names = append(names, n)
 	}
 	if len(p.xfields) > 0 {
@@ -528,6 +534,9 @@ func paramSet(p *c07params) string {
 		n := "range"
 		if len(p.rangeOf) > 1 {
 			n = "range-nested"
+		}
+		if p.emptyWindow {
+			n += "-empty"
 		}
 		names = append(names, n)
 	}
@@ -613,7 +622,7 @@ func (pp c07) drawParams(c *core.Ctx, s *dp.Schema, kids []*dp.SNode, tlist *dp.
 	if tlist != nil {
 		skids = tlist.S.Children
 	}
-	paths := schemaPaths(skids, 3)
+	paths := schemaPaths(skids, 5)
 	lists := listPaths(skids)
 	pick := func() []string { return paths[r.Intn(len(paths))] }
 	enc := func(alts [][]string) string {
@@ -622,6 +631,31 @@ func (pp c07) drawParams(c *core.Ctx, s *dp.Schema, kids []*dp.SNode, tlist *dp.
 			parts = append(parts, strings.Join(a, "/"))
 		}
 		return url.QueryEscape(strings.Join(parts, ";"))
+	}
+	// grouped spelling: alternatives that share a prefix written as prefix(rest1;rest2), the same set of paths
+	grouped := func() ([][]string, string) {
+		for try := 0; try < 8; try++ {
+			pre := pick()
+			var ext [][]string
+			for _, q := range paths {
+				if len(q) > len(pre) && strings.Join(q[:len(pre)], "/") == strings.Join(pre, "/") {
+					ext = append(ext, q)
+				}
+			}
+			if len(ext) < 2 {
+				continue
+			}
+			r.Shuffle(len(ext), func(i, j int) { ext[i], ext[j] = ext[j], ext[i] })
+			if len(ext) > 3 {
+				ext = ext[:2+r.Intn(2)]
+			}
+			var rests []string
+			for _, q := range ext {
+				rests = append(rests, strings.Join(q[len(pre):], "/"))
+			}
+			return ext, url.QueryEscape(strings.Join(pre, "/") + "(" + strings.Join(rests, ";") + ")")
+		}
+		return nil, ""
 	}
 	add := func(kind int) {
 		switch kind {
@@ -639,6 +673,14 @@ func (pp c07) drawParams(c *core.Ctx, s *dp.Schema, kids []*dp.SNode, tlist *dp.
 			if len(paths) == 0 {
 				return
 			}
+			if r.Intn(3) == 0 {
+				if alts, q := grouped(); alts != nil {
+					p.fields = alts
+					p.query = append(p.query, "fields="+q)
+					p.groupedSpelling = true
+					return
+				}
+			}
 			n := 1 + r.Intn(3)
 			for i := 0; i < n; i++ {
 				p.fields = append(p.fields, pick())
@@ -647,6 +689,14 @@ func (pp c07) drawParams(c *core.Ctx, s *dp.Schema, kids []*dp.SNode, tlist *dp.
 		case 3:
 			if len(paths) == 0 {
 				return
+			}
+			if r.Intn(3) == 0 {
+				if alts, q := grouped(); alts != nil {
+					p.xfields = alts
+					p.query = append(p.query, "fc.xfields="+q)
+					p.groupedSpelling = true
+					return
+				}
 			}
 			n := 1 + r.Intn(2)
 			for i := 0; i < n; i++ {
@@ -666,8 +716,15 @@ func (pp c07) drawParams(c *core.Ctx, s *dp.Schema, kids []*dp.SNode, tlist *dp.
 			p.rEnd = -1
 			spec := fmt.Sprintf("%d", p.rStart)
 			if r.Intn(3) != 0 {
-				p.rEnd = p.rStart + 1 + r.Intn(4)
+				// [start,end): end == start is an empty window, end < start an inverted (empty) one
+				p.rEnd = p.rStart - 1 + r.Intn(6)
+				if p.rEnd < 0 {
+					p.rEnd = 0
+				}
 				spec = fmt.Sprintf("%d-%d", p.rStart, p.rEnd)
+				if p.rEnd <= p.rStart {
+					p.emptyWindow = true
+				}
 			} else if r.Intn(2) == 0 {
 				spec += "-"
 			}
